@@ -841,3 +841,63 @@ pub fn op_flipx(args: &[&str]) -> String {
         dig(&b2.data)
     )
 }
+
+/// `glue <blob> <bs>`: the small public conversions around the outboards: length-prefixed / suffixed forms
+/// (at bs 0 the prefixed pre-order outboard is the bao crate's outboard, prefix included), `map_data`,
+/// geometry accessors, item predicates, `ChunkNum::to_usize`
+pub fn op_glue(args: &[&str]) -> String {
+    let data = blob(args[0]);
+    let bs = bs_of(args[1]);
+    let pre = PreOrderMemOutboard::create(&data, bs);
+    let post = PostOrderMemOutboard::create(&data, bs);
+    let tree = pre.tree;
+    let acc = tree.block_size() == bs
+        && tree.size() == data.len() as u64
+        && tree.chunks().to_usize() as u64 == tree.chunks().0
+        && post.tree == tree
+        && pre.root == post.root;
+    let mapped_pre = pre.clone().map_data(|v| v.into_iter().rev().collect::<Vec<u8>>());
+    let mapped_post = post.clone().map_data(|v| v.into_iter().rev().collect::<Vec<u8>>());
+    let map_ok = mapped_pre.root == pre.root
+        && mapped_pre.tree == tree
+        && mapped_post.root == post.root
+        && mapped_post.tree == tree
+        && mapped_pre.data.iter().rev().copied().collect::<Vec<u8>>() == pre.data
+        && mapped_post.data.iter().rev().copied().collect::<Vec<u8>>() == post.data;
+    let with_prefix = pre.clone().into_inner_with_prefix();
+    let with_suffix = post.clone().into_inner_with_suffix();
+    let bao_full = if bs == BlockSize::ZERO {
+        let (o, h) = bao::encode::outboard(&data);
+        format!("{}:{}", dig(&o), b01(h.as_bytes() == pre.root.as_bytes()))
+    } else {
+        "-".to_string()
+    };
+    // item predicates on the honest decode of the whole blob
+    let mut enc = Vec::new();
+    sync::encode_ranges_validated(&data[..], &pre, &ChunkRanges::all(), &mut enc).unwrap();
+    let all = ChunkRanges::all();
+    let mut pred_ok = true;
+    let (mut np, mut nl) = (0u64, 0u64);
+    for item in sync::DecodeResponseIter::new(pre.root, tree, &enc[..], &all) {
+        let item = item.unwrap();
+        match &item {
+            bao_tree::io::BaoContentItem::Parent(_) => {
+                np += 1;
+                pred_ok &= item.is_parent() && !item.is_leaf();
+            }
+            bao_tree::io::BaoContentItem::Leaf(_) => {
+                nl += 1;
+                pred_ok &= item.is_leaf() && !item.is_parent();
+            }
+        }
+    }
+    format!(
+        "{} {} {} {}{}{} {np} {nl}",
+        dig(&with_prefix),
+        dig(&with_suffix),
+        bao_full,
+        b01(acc),
+        b01(map_ok),
+        b01(pred_ok)
+    )
+}
